@@ -48,7 +48,7 @@ Proof.
   pose proof (merge_indexes_tab _ _ _ E3 tab_ok_nil) as Ht.
   destruct (append_record_tab _ _ _ _ _ E4 Ht) as [Ht' (x & Hx & _)].
   assert (HL : 1 <= zlen recs') by (rewrite Hx; unfold zlen; rewrite app_length; cbn [length]; lia).
-  set (s0 := mkXR data recs' 0 0 0 (0, 0, 0) (mkZr [] 0 None 0 false) None log') in *.
+  set (s0 := mkXR data recs' 0 0 0 (0, 0, 0) (mkZr [] 0 None 0 false false) None log') in *.
   assert (Hr : r_recs s1 = recs') by (rewrite Es, seek_keeps_recs; reflexivity).
   rewrite Hr. rewrite Es, seek_unfold. unfold blocked, spos. cbn [s0 r_err Z.eqb Z.ltb Z.compare].
   assert (Hf : fast_ok s0 0 = false) by reflexivity. rewrite Hf. cbn [snd].
